@@ -43,10 +43,10 @@ OPEN_STATEMENTS = [
     'CAR of the Spec; lattice coefficients (1/D)Z[i] with tol*D <= 1). The last two hold under per-run exact-regime flags '
     'the driver reports (exact-regime(qh): every pairing term has exactly the conjugate partner; exact-regime(dch): the '
     'two-body coefficients of normal_ordered(A) are real) because the source accepts a discrepancy / drops an imaginary '
-    'part below 1e-8; get_diagonal_coulomb_hamiltonian is also proved for ignore_incompatible_terms=True '
-    '(get_diagonal_coulomb_hamiltonian_sound_general: the result denotes exactly the diagonal-Coulomb-form terms of '
-    'normal_ordered(A)); runs whose flag is False and get_quadratic_hamiltonian with ignore_incompatible_terms=True are '
-    'outside the theorems: correspondence + Spec oracle + round trip only',
+    'part below 1e-8; both are also proved for ignore_incompatible_terms=True '
+    '(get_diagonal_coulomb_hamiltonian_sound_general / get_quadratic_hamiltonian_sound_general: the result denotes exactly '
+    'the terms of normal_ordered(A) of diagonal Coulomb resp. quadratic form); runs whose flag is False are outside the '
+    'theorems: correspondence + Spec oracle + round trip only',
     'get_fermion_operator(MajoranaOperator): proved for the generators (majorana_generator_sound); products and sums use '
     'FermionOperator `*` and the pruning `+=` (exact regime) and are covered by the Spec oracle '
     '(get_majorana_operator(FermionOperator) is proved at full strength: get_majorana_operator_sound)',
